@@ -17,9 +17,12 @@ static uint32_t rel_sleep[REL_MAXSEND + 1];
 static size_t rel_mc_off[REL_MAXSEND], rel_mc_n[REL_MAXSEND]; static unsigned rel_mc_calls[REL_MAXSEND];
 static const uint8_t *rel_base(void);
 
+static unsigned rel_sA;            /* sends on interface A in the current world */
 static void oracle_rel(const vcfg *c, const uint8_t *f, size_t n) {
-    (void)c;
-    unsigned s = g_nsend - 1;
+#if REL_MODE == 4
+    if (c != &g_cfgA) return;      /* the other interface's frames are its own business (checked by its own run) */
+#endif
+    unsigned s = rel_sA++;
     V_ASSERT(s < REL_MAXSEND, "C02: number of frames per request within the class bound");
     if (s >= REL_MAXSEND) return;
     size_t mc_off = 0, mc_n = 0; unsigned mc_calls = 0;
@@ -40,11 +43,14 @@ static void oracle_rel(const vcfg *c, const uint8_t *f, size_t n) {
         if (in.j < n)
 #endif
             V_ASSERT(rel_has[s] && rel_byte[s] == f[in.j], "C02,C09,C17: transmitted bytes identical in both worlds (every byte determined by frames received and configuration)");
+#if REL_MODE != 4     /* with two interfaces copying payloads the global copy record cannot be attributed; header and length are still compared */
         V_ASSERT(rel_mc_calls[s] == mc_calls && rel_mc_n[s] == mc_n && rel_mc_off[s] == mc_off, "C02,C09,C17: same payload source range in both worlds");
+#endif
     }
 }
 
 static void world_counters_reset(void) {
+    rel_sA = 0;
     g_nsend = 0; g_nsleep = 0; g_nevent = 0; g_nmalloc = 0; g_nfree = 0;
 #ifdef V_MEMCPY_RECORD
     g_mc_calls = 0; g_mc_n = 0; g_mc_src = 0; g_mc_dst = 0;
@@ -53,7 +59,7 @@ static void world_counters_reset(void) {
 
 static uint8_t rel_qtype; static lltd_iface_state *rel_st; static bool rel_cached;
 static const uint8_t *rel_base(void) {
-    if (rel_qtype == 0x0E) return rel_cached ? (const uint8_t *)rel_st->small_icon : g_last_icon;
+    if (rel_qtype == 0x0E) return (rel_st && rel_st->small_icon) ? (const uint8_t *)rel_st->small_icon : g_last_icon;   /* the icon is cached in the record before it is sent */
     if (rel_qtype == 0x11) return g_last_name;
     return g_last_hwid_dst;
 }
@@ -80,6 +86,29 @@ static void rel_class_assume(void) {
     V_ASSUME(!handled_pair(t, o));
 #endif
 }
+
+#if REL_MODE == 4
+/* handler-level calls with explicit records (keeps the two interfaces' records apart for the solver) */
+static uint8_t *rel_rxB; static lltd_iface_state *rel_stB;
+static void rel_call(uint8_t *rx, lltd_iface_state *st, void *ctx) {
+#if REL_CLASS == 0
+    answerHello(rx, st, ctx);
+#elif REL_CLASS == 2
+    parseEmit(rx, st, ctx);
+#elif REL_CLASS == 3
+    parseProbe(rx, st, ctx);
+#elif REL_CLASS == 6
+    parseQuery(rx, st, ctx);
+#elif REL_CLASS == 11
+    parseQueryLargeTlv(rx, st, ctx);
+#else
+    (void)rx; (void)st; (void)ctx;
+#endif
+}
+#ifdef V_PREEMPT
+static void v_preempt_target(void) { rel_call(rel_rxB, rel_stB, &g_cfgB); }
+#endif
+#endif
 
 struct post { uint8_t known; uint8_t mreal[6], mapp[6]; uint16_t seq, gt, gq; bool icon; size_t icon_size; uint32_t count; struct snap sn; unsigned nsend, nsleep; long live; };
 
@@ -134,8 +163,13 @@ void h_rel(void) {
     }
 #endif
     rel_st = s1; rel_cached = (s1->small_icon != 0);
+#if REL_MODE == 4
+    rel_call(rx1, s1, &g_cfgA);                /* world 1: interface A alone */
+#else
     parseFrame(rx1, &g_cfgA);
+#endif
     take_post(s1, &p1);
+    p1.nsend = rel_sA;
 #if REL_MODE == 3
     {   /* the other interface's record is untouched */
         struct snap snb1; snapshot_list(sb, &snb1);
@@ -167,12 +201,37 @@ void h_rel(void) {
 #endif
     lltd_iface_state *s2 = build_state(&g_cfgA, &st2);
     rel_st = s2; rel_cached = (s2->small_icon != 0);
+#if REL_MODE == 4
+    /* world 2: interface B's thread handles a frame of the same class inside A's PREEMPT_AT-th platform call */
+    g_cfgB = in.cfg2; constrain_cfg(&g_cfgB, 0);
+#ifdef MTU_FIXED
+    g_cfgB.mtu = MTU_FIXED;
+#endif
+    g_two_ifaces = true;
+    rel_stB = build_state(&g_cfgB, &in.st2);
+    rel_rxB = make_frame(in.frame2, g_cfgB.mtu);
+    rel_rxB[F_TOS] = in.frame[F_TOS]; rel_rxB[F_OP] = in.frame[F_OP];
+#if REL_CLASS == 11 && defined(QTYPE)
+    rel_rxB[32] = QTYPE;
+#endif
+#if REL_CLASS == 2
+    rel_rxB[32] = 0; rel_rxB[33] = 1;         /* one descriptor on B */
+#endif
+#ifdef V_PREEMPT
+    g_portcalls = 0; g_preempt_at = PREEMPT_AT; g_preempt_armed = 1;
+#endif
+    rel_call(rx2, s2, &g_cfgA);
+#else
     parseFrame(rx2, &g_cfgA);
 #endif
+#endif
     take_post(s2, &p2);
+    p2.nsend = rel_sA;
 
     V_ASSERT(p1.nsend == p2.nsend, "C02,C09,C17: same number of frames transmitted in both worlds");
+#if REL_MODE != 4
     V_ASSERT(p1.nsleep == p2.nsleep, "C09: same pauses in both worlds");
+#endif
     /* equivalence of the post-records (lets single steps stand for arbitrary continuations) */
     V_ASSERT(p1.known == p2.known, "C09: same mapper status afterwards");
     if (p1.known) V_ASSERT(mac6_eq(p1.mreal, p2.mreal) && mac6_eq(p1.mapp, p2.mapp), "C09: same active mapper afterwards");
